@@ -11,6 +11,8 @@ CONSTANTS
   Shapes = @@SHAPES@@
   FixSets = {@@FIXES@@}
   Causes = {"peer", "cmd", "sweep", "kick"}
+  Lookups = @@LOOKUPS@@
+  WritingLookup = FALSE
   Emit = TRUE
   Only = "@@ONLY@@"
 INIT Init
